@@ -304,6 +304,245 @@ def trace_layer(ctx, n_pkgs, n_writes):
         codec.stop_packages(pkgs)
 
 
+SPY_PRELUDE = r"""
+#include <cstdio>
+#include <cstdlib>
+namespace yardl_spy {
+inline FILE* out() {
+  static FILE* f = [] { const char* p = std::getenv("YARDL_SPY"); return p ? std::fopen(p, "w") : nullptr; }();
+  return f;
+}
+inline void log(const char* k, unsigned long long v) {
+  if (FILE* f = out()) { std::fprintf(f, "%s %llu\n", k, v); std::fflush(f); }
+}
+inline void bytes(const char* k, void const* d, size_t n) {
+  if (FILE* f = out()) {
+    std::fprintf(f, "%s %zu ", k, n);
+    auto p = static_cast<unsigned char const*>(d);
+    for (size_t i = 0; i < n; i++) std::fprintf(f, "%02x", p[i]);
+    std::fprintf(f, "\n");
+    std::fflush(f);
+  }
+}
+inline FILE* rout() {
+  static FILE* f = [] { const char* p = std::getenv("YARDL_SPY_R"); return p ? std::fopen(p, "w") : nullptr; }();
+  return f;
+}
+inline int& rdepth() { static int d = 0; return d; }
+struct RGuard {
+  const char* k; void const* p; size_t n; bool top;
+  RGuard(const char* k_, void const* p_, size_t n_) : k(k_), p(p_), n(n_) { top = (rdepth()++ == 0); }
+  ~RGuard() {
+    --rdepth();
+    FILE* f = rout();
+    if (top && f && std::uncaught_exceptions() == 0) {
+      std::fprintf(f, "%s %zu ", k, n);
+      auto q = static_cast<unsigned char const*>(p);
+      for (size_t i = 0; i < n; i++) std::fprintf(f, "%02x", q[i]);
+      std::fprintf(f, "\n");
+      std::fflush(f);
+    }
+  }
+};
+}  // namespace yardl_spy
+"""
+SPY_POINTS = [
+    ("  void WriteByte(T const& v) {\n", '    yardl_spy::log("b", static_cast<unsigned long long>(static_cast<uint8_t>(v)));\n'),
+    ("  void WriteVarInt(T value) {\n", '    yardl_spy::log(sizeof(T) == 4 ? "v32" : "v64", static_cast<unsigned long long>(value));\n'),
+    ("  void WriteFixedInteger(T const& value) {\n", '    yardl_spy::bytes("f", &value, sizeof(value));\n'),
+    ("  void WriteBytes(void const* data, size_t size_in_bytes) {\n", '    yardl_spy::bytes("B", data, size_in_bytes);\n'),
+    ("  void Flush() {\n", '    yardl_spy::log("F", 0);\n'),
+    # CodedInputStream: a guard logs what the outermost call returned when it leaves normally
+    ("  void ReadByte(T& v) {\n", '    yardl_spy::RGuard _spy("b", &v, 1);\n'),
+    ("  void ReadFixedInteger(T& value) {\n", '    yardl_spy::RGuard _spy("f", &value, sizeof(value));\n'),
+    ("  void ReadVarInt32(uint32_t& value) {\n", '    yardl_spy::RGuard _spy("v32", &value, sizeof(value));\n'),
+    ("  void ReadVarInt64(T& value) {\n", '    yardl_spy::RGuard _spy("v64", &value, sizeof(value));\n'),
+    ("  void ReadBytes(void* data, size_t size_in_bytes) {\n", '    yardl_spy::RGuard _spy("B", data, size_in_bytes);\n'),
+    ("  void VerifyFinished() {\n", '    yardl_spy::RGuard _spy("V", nullptr, 0);\n'),
+]
+
+
+def instrument_coded_stream(text):
+    """a translator: the shipped coded_stream.h with one logging statement at the start of each of the five methods through which
+    CodedOutputStream receives data; None when the header no longer has the shape this relies on"""
+    for head, ins in SPY_POINTS:
+        if text.count(head) != 1:
+            return None
+        text = text.replace(head, head + ins)
+    marker = "namespace yardl::binary {"
+    if text.count(marker) < 1:
+        return None
+    return text.replace(marker, SPY_PRELUDE + "\n" + marker, 1)
+
+
+def has_big_map(v):
+    """maps are written in the iteration order of std::unordered_map: traces with a map of two or more entries are not compared"""
+    if isinstance(v, tuple):
+        if v and v[0] == "map" and len(v[1]) >= 2:
+            return True
+        return any(has_big_map(x) for x in v[1:])
+    if isinstance(v, list):
+        return any(has_big_map(x) for x in v)
+    return False
+
+
+def coq_ctrace(lines):
+    from vlib import coq_bytes
+    out = []
+    for ln in lines:
+        t = ln.split()
+        if not t:
+            continue
+        if t[0] == "b":
+            out.append("WByte %s" % t[1])
+        elif t[0] in ("v32", "v64"):
+            out.append("WVar %s %s" % (t[0][1:], t[1]))
+        elif t[0] == "f":
+            bs = bytes.fromhex(t[2]) if len(t) > 2 else b""
+            out.append("WFixed %s %d" % (t[1], int.from_bytes(bs, "little")))
+        elif t[0] == "B":
+            bs = bytes.fromhex(t[2]) if len(t) > 2 else b""
+            out.append("WBytes " + coq_bytes(list(bs)))
+        else:
+            out.append("WFlush")
+    while out and out[-1] == "WFlush":
+        out.pop()
+    return out
+
+
+def coq_crtrace(lines):
+    from vlib import coq_bytes
+    out = []
+    for ln in lines:
+        t = ln.split()
+        if not t:
+            continue
+        bs = bytes.fromhex(t[2]) if len(t) > 2 else b""
+        if t[0] == "b":
+            out.append("(RByte, VNum %d)" % bs[0])
+        elif t[0] in ("v32", "v64"):
+            out.append("(RVar %s, VNum %d)" % (t[0][1:], int.from_bytes(bs, "little")))
+        elif t[0] == "f":
+            out.append("(RFixed %s, VNum %d)" % (t[1], int.from_bytes(bs, "little")))
+        elif t[0] == "B":
+            out.append("(RBytes %s, VBytes %s)" % (t[1], coq_bytes(list(bs))))
+        elif t[0] == "V":
+            out.append("(RVerify, VUnit)")
+    return out
+
+
+def cpp_trace_layer(ctx, n_pkgs, n_writes):
+    """Model.CppTyped against the generated C++ writers: the generated code is compiled against an instrumented copy of the
+    shipped coded_stream.h (instrument_coded_stream) and the calls it logs while the translator copies reference streams (batch
+    capacities 1 and 3) are compared call by call with cpp_wops / cpp_stream_ops inside Coq"""
+    import genrun
+    import subprocess
+    from vlib import coq_bytes
+    rng = ctx.rng
+    cases, meta, rcases, rmeta = [], [], [], []
+    for i in range(n_pkgs):
+        pkg = ymodel.Gen(rng, namespace="Pkc" + "abcdefghijklmnopqrstuvwxyz"[i % 26]).build()
+        gp = genrun.GenPackage(ctx, pkg, "pkg_ctr_%d" % i, ndjson=False, cpp=True, python=True)
+        if not gp.generate():
+            raise RuntimeError("yardl rejected a generated package:\n%s\n%s" % (gp.gen_out[-1500:], pkg.yaml()))
+        gp.schemas_ = gp.schemas()
+        hdr = os.path.join(gp.dir, "cpp", "generated", "yardl", "detail", "binary", "coded_stream.h")
+        text = instrument_coded_stream(open(hdr).read())
+        if text is None:
+            ctx.report("cpp-spy-instrumentation", "coded_stream.h no longer has the methods the instrumentation looks for (WriteByte, WriteVarInt, "
+                       "WriteFixedInteger, WriteBytes, Flush; ReadByte, ReadFixedInteger, ReadVarInt32, ReadVarInt64, ReadBytes, VerifyFinished)", {"broken": "translator instrument_coded_stream "
+                       "(theorem C01_cpp_typed_writer_bytes not tied)"}, no_input=True)
+            return
+        open(hdr, "w").write(text)
+        if not gp.cpp_build():
+            continue     # reported by the typed layer (known C++ findings such as bool sequences)
+        for pname, steps in pkg.protocols:
+            schema = gp.schemas_[pname]
+            for _ in range(n_writes):
+                ws = ymodel.gen_writes(rng, steps)
+                if any(has_big_map(w) for w in ws):
+                    ctx.count("cpp_trace_skipped", "map with several entries (unordered_map order)")
+                    continue
+                stream = ymodel.enc_header(schema) + ymodel.enc_steps(steps, ws)
+                for batch in (1, 3):
+                    log, rlog = os.path.join(gp.dir, "spy.log"), os.path.join(gp.dir, "spy_r.log")
+                    for f_ in (log, rlog):
+                        if os.path.exists(f_):
+                            os.remove(f_)
+                    try:
+                        p = subprocess.run([gp.tr, pname, "binary", "binary", str(batch)], input=stream, stdout=subprocess.PIPE,
+                                           stderr=subprocess.PIPE, timeout=60, env=dict(os.environ, YARDL_SPY=log, YARDL_SPY_R=rlog))
+                    except subprocess.TimeoutExpired:
+                        continue
+                    if p.returncode != 0 or not os.path.exists(log):
+                        continue     # reported by the typed layer
+                    tr = coq_ctrace(open(log).read().split("\n"))
+                    csteps = []
+                    for (sn, t, is_stream), w in zip(steps, ws):
+                        if is_stream:
+                            items = [x for b in w for x in b]
+                            csteps.append("CSStream (%s) %d%%nat [%s]" % (t.coq(), batch, "; ".join(ymodel.coq_val(x) for x in items)))
+                        else:
+                            csteps.append("CSVal (%s) (%s)" % (t.coq(), ymodel.coq_val(w)))
+                    cases.append("(%s, [%s], [%s])" % (coq_bytes(list(schema.encode("utf-8"))), "; ".join(csteps), "; ".join(tr)))
+                    meta.append((gp, pname, batch, stream, tr))
+                    if batch == 1 and os.path.exists(rlog):
+                        rtr = coq_crtrace(open(rlog).read().split("\n"))
+                        rsteps = []
+                        for (sn, t, is_stream), w in zip(steps, ws):
+                            if is_stream:
+                                rsteps.append("CRStream (%s) %d%%nat" % (t.coq(), len([b for b in w if b])))
+                            else:
+                                rsteps.append("CRVal (%s)" % t.coq())
+                        rcases.append("(%s, [%s], %s, [%s])" % (coq_bytes(list(schema.encode("utf-8"))), "; ".join(rsteps),
+                                                                coq_bytes(list(stream)), "; ".join(rtr)))
+                        rmeta.append((gp, pname, stream, rtr))
+    shards = [list(range(i, min(i + 40, len(cases)))) for i in range(0, len(cases), 40)]
+
+    def ev(idx):
+        body = ("From Coq Require Import List NArith ZArith Bool.\nImport ListNotations.\nOpen Scope N_scope.\n"
+                "From YV Require Import Base.Wire Model.Binary Model.CodedCpp Model.CppLayout Model.CppTyped.\n"
+                "Definition cases : list ctrcase := [\n " + ";\n ".join(cases[i] for i in idx) + "\n].\n"
+                "Definition ST := Eval vm_compute in map ctrcase_status cases.\nPrint ST.\n")
+        return Ctx.parse_nat_list(ctx.coq_eval("ctr_%d" % idx[0], body, timeout=1500), "ST")
+    with ThreadPoolExecutor(max_workers=8) as ex:
+        st = [x for r in ex.map(ev, shards) for x in r]
+    for (gp, pname, batch, stream, tr), s_ in zip(meta, st):
+        ctx.case(("ctrace", pname, batch, stream), nontrivial=len(tr) > 0,
+                 sample={"layer": "cpp-typed-trace", "protocol": pname, "batch": batch, "calls": len(tr), "agrees": s_ == 0})
+        ctx.count("cpp_trace_calls", "<10" if len(tr) < 10 else ("<100" if len(tr) < 100 else ">=100"))
+        ctx.count("cpp_trace_fast_paths", "with WriteBytes" if any(x.startswith("WBytes") for x in tr[4:]) else "without")
+        if s_ != 0:
+            ctx.report("cpp-typed-trace-differs", "the calls the generated C++ writer of protocol %s (batch capacity %d) makes on the coded output "
+                       "stream part from Model.CppTyped.cpp_wops at call %d: observed %s" % (pname, batch, s_ - 1, tr[max(0, s_ - 2):s_ + 1]),
+                       {"layer": "cpp-typed-trace", "model": gp.pkg.yaml(), "namespace": gp.pkg.namespace, "protocol": pname, "batch": batch,
+                        "stream_hex": stream.hex(), "observed_calls_around": tr[max(0, s_ - 3):s_ + 2],
+                        "broken": "correspondence Model.CppTyped.cpp_wops vs serializers.h / generated Write functions "
+                                  "(theorem C01_cpp_typed_writer_bytes no longer about the code)"}, no_input=True)
+    rshards = [list(range(i, min(i + 40, len(rcases)))) for i in range(0, len(rcases), 40)]
+
+    def rev(idx):
+        body = ("From Coq Require Import List NArith ZArith Bool.\nImport ListNotations.\nOpen Scope N_scope.\n"
+                "From YV Require Import Base.Wire Model.Binary Model.CodedCpp Model.CppLayout Model.CppReadProg Model.CppTypedRead.\n"
+                "Definition cases : list crtcase := [\n " + ";\n ".join(rcases[i] for i in idx) + "\n].\n"
+                "Definition ST := Eval vm_compute in map crtcase_status cases.\nPrint ST.\n")
+        return Ctx.parse_nat_list(ctx.coq_eval("crtr_%d" % idx[0], body, timeout=1500), "ST")
+    with ThreadPoolExecutor(max_workers=8) as ex:
+        rst = [x for r in ex.map(rev, rshards) for x in r]
+    for (gp, pname, stream, rtr), s_ in zip(rmeta, rst):
+        ctx.case(("crtrace", pname, stream), nontrivial=len(rtr) > 0,
+                 sample={"layer": "cpp-typed-read-trace", "protocol": pname, "calls": len(rtr), "agrees": s_ == 0})
+        ctx.count("cpp_read_trace_calls", "<10" if len(rtr) < 10 else ("<100" if len(rtr) < 100 else ">=100"))
+        if s_ != 0:
+            ctx.report("cpp-typed-read-trace-differs", "the calls the generated C++ reader of protocol %s makes on the coded input stream (with "
+                       "what they return) part from the reader program Model.CppTypedRead.cpp_read at call %d: observed %s"
+                       % (pname, s_ - 1, rtr[max(0, s_ - 2):s_ + 1]),
+                       {"layer": "cpp-typed-read-trace", "model": gp.pkg.yaml(), "namespace": gp.pkg.namespace, "protocol": pname,
+                        "stream_hex": stream.hex(), "observed_calls_around": rtr[max(0, s_ - 3):s_ + 2],
+                        "broken": "correspondence Model.CppTypedRead.cpp_read vs serializers.h / generated Read functions "
+                                  "(theorem C01_cpp_typed_roundtrip no longer about the code)"}, no_input=True)
+
+
 def boundary_layer(ctx, offsets, cpp=True):
     """Values placed so that they start `d` bytes before a 64 KiB boundary of the stream (d in offsets):
     the writer's staging buffer and the reader's refill both happen inside / right at the value."""
@@ -402,6 +641,7 @@ def run(ctx):
     py_writer_layer(ctx, 80 if quick else 800)
     typed_layer(ctx, 3 if quick else 12, 6 if quick else 20)
     trace_layer(ctx, 2 if quick else 8, 4 if quick else 12)
+    cpp_trace_layer(ctx, 1 if quick else 4, 4 if quick else 12)
     boundary_layer(ctx, [0, 1, 2, 5, 9] if quick else list(range(-2, 13)))
 
 
